@@ -1008,6 +1008,10 @@ class Image(object):
 
         self._wcs = _flip_wcs_parity(self._wcs, self.height)
         self._array = self.asarray()[::-1]
+
+        # If the image came from PIL, the PIL object still shows the unflipped
+        # rows; aspil() must now be derived from the flipped array.
+        self._pil = None
         return self
 
     def ensure_negative_parity(self):
